@@ -75,6 +75,10 @@ pub fn alphabet(c18: bool, reduced: bool) -> (Vec<Stmt>, Vec<Block>) {
         atoms.push(Stmt::Let("n".into(), lit(2)));
         atoms.push(Stmt::Repeat(lit(2), row()));
         atoms.push(Stmt::Repeat(name("n"), row()));
+        if c18 {
+            atoms.push(Stmt::Row(vec![Entry::Lit(1, Radix::Dec), Entry::Lit(2, Radix::Dec), Entry::Z, Entry::X, Entry::X, Entry::X, Entry::X]));
+            atoms.push(Stmt::Repeat(lit(2), vec![Entry::Lit(1, Radix::Dec), Entry::X, Entry::C, Entry::X, Entry::X, Entry::X, Entry::X]));
+        }
         blocks.push(Block::Loop("i".into(), lit(0)));
         blocks.push(Block::Loop("i".into(), lit(2)));
         blocks.push(Block::Loop("a".into(), name("a")));
@@ -84,6 +88,9 @@ pub fn alphabet(c18: bool, reduced: bool) -> (Vec<Stmt>, Vec<Block>) {
     }
     atoms.push(Stmt::Row(vec![Entry::Bits(2, name("a")), p(name("i")), Entry::X, Entry::X, Entry::X, Entry::X]));
     if c18 {
+        // rows without any expression (alone in a loop or as a repeat row: the counter is a variable all the same)
+        atoms.push(Stmt::Row(vec![Entry::Lit(1, Radix::Dec), Entry::Lit(2, Radix::Dec), Entry::Z, Entry::X, Entry::X, Entry::X, Entry::X]));
+        atoms.push(Stmt::Repeat(lit(2), vec![Entry::Lit(1, Radix::Dec), Entry::X, Entry::C, Entry::X, Entry::X, Entry::X, Entry::X]));
         atoms.push(Stmt::Row(vec![Entry::C, p(name("i")), p(name("n")), Entry::X, Entry::X, Entry::X, Entry::X]));
         atoms.push(Stmt::Row(vec![Entry::X, p(name("i")), p(name("a")), Entry::X, Entry::X, Entry::X, Entry::X]));
     }
@@ -357,6 +364,61 @@ pub fn run(id: &'static str, tier: Tier, seed: u64) -> i32 {
         total.merge(fixtures(&deadline));
         total.merge(large_cases(&deadline));
     }
+    if c18 {
+        // far beyond the enumerated scope: 30 variables, six of them shadowed at two levels
+        let sigs = vec![Sig::inp("P0", 16, 0), Sig::inp("P1", 16, 0), Sig::out("Q", 16)];
+        let mut body: Vec<Stmt> = (0..30).map(|j| Stmt::Let(format!("OP{j:02}"), lit(100 + j))).collect();
+        let rowv = |a: &str, b: &str| Stmt::Row(vec![Entry::Paren(name(a)), Entry::Paren(name(b)), Entry::X]);
+        body.push(Stmt::Loop("OP17".into(), lit(2), vec![Stmt::Let("OP03".into(), lit(5)), rowv("OP17", "OP03"), Stmt::Loop("OP29".into(), lit(2), vec![Stmt::Let("OP17".into(), lit(9)), Stmt::Let("OP00".into(), name("OP29")), rowv("OP17", "OP00")]), rowv("OP17", "OP29")]));
+        body.push(rowv("OP17", "OP03"));
+        let prog = Program { header: vec!["P0".into(), "P1".into(), "Q".into()], body };
+        let text = text(&prog);
+        let script = vec![Step::Ans(vec![("Q".into(), V::Num(1))])];
+        let r = ref_run_fuel(&prog, &sigs, &script, 10_000, 100);
+        let mut opts = RunOpts::new(r.items.len() + 1);
+        opts.repeat_last = true;
+        opts.collect_vars = true;
+        let obs = run_dynamic(&text, &sigs, true, &script, &opts);
+        total.evals += 1;
+        total.nontrivial += 1;
+        total.witness("thirty_variables_six_shadowed");
+        if let Some((k, m)) = run_mismatch(&r, &obs, proj, None) {
+            total.violation(&format!("large scale: {}", classify(&m)), 11 << 56, format!("30 variables, loops shadowing OP17, OP03, OP29, OP00\nfirst difference at {m} (item {k})"), || dyn_replay(&text, &sigs, true, &script, &opts, ref_items_brief(&r), &obs, &m));
+        }
+    }
+    {
+        // an iterator is Send: created and advanced j times on one thread, it carries on on another;
+        // rows and vars() are those of a run on a single thread
+        let (ra, rb) = alphabet(c18, true);
+        let sigs = &lists[0];
+        for k in 1..=3 {
+            let sp = ForestSpace::new(ra.clone(), rb.clone(), 3, k);
+            let st = par_range(&format!("iterator moved to another thread after j = 0..3 calls: programs with {k} statements of the reduced alphabet"), sp.count(k), &deadline, |idx, st| {
+                let prog = Program { header: header.clone(), body: sp.unrank(k, idx) };
+                let text = text(&prog);
+                let Ok(tc) = load(&text, sigs, DEFAULT_BUDGET) else { return };
+                let r = ref_run_repeat(&prog, sigs, &[Step::Ans(answer(sigs, 1))]);
+                if r.end != RefEnd::Done || r.items.len() > 30 {
+                    return;
+                }
+                let total_calls = r.items.len() + 1;
+                let ans = answer(sigs, 1);
+                let single = run_across_threads(&tc, &ans, total_calls, total_calls);
+                for j in 0..=3usize.min(total_calls - 1) {
+                    st.evals += 1;
+                    st.nontrivial += 1;
+                    st.witness("iterator_moved_to_another_thread");
+                    let moved = run_across_threads(&tc, &ans, j, total_calls);
+                    if moved != single {
+                        let pos = moved.iter().zip(single.iter()).position(|(a, b)| a != b).unwrap_or(moved.len().min(single.len()));
+                        st.violation(if c18 { "vars" } else { "rows differ after the iterator moved to another thread" }, (12 << 56) + (idx << 4) + j as u64, format!("program:\n{text}the iterator is moved to another thread after {j} calls of next()\ncall {pos}: {}\non a single thread: {}", moved.get(pos).cloned().unwrap_or_default(), single.get(pos).cloned().unwrap_or_default()), || json!({"kind": "threads", "text": text, "signals": sigs_json(sigs), "moved_after": j, "calls": total_calls, "expected": single, "observed": moved}));
+                        return;
+                    }
+                }
+            });
+            total.merge(st);
+        }
+    }
     {
         // (C18: vars(); C01: the rows) when the caller carries on after an error item (a virtual
         // signal that fails for one particular answer): explicit-state exploration over the answers
@@ -452,6 +514,10 @@ pub fn run(id: &'static str, tier: Tier, seed: u64) -> i32 {
     ];
     let mut required = required;
     required.push("error_item_then_caller_carries_on");
+    required.push("iterator_moved_to_another_thread");
+    if c18 {
+        required.push("thirty_variables_six_shadowed");
+    }
     required.push("row_after_an_expression_error_item");
     let meta = CheckMeta {
         id,
@@ -468,4 +534,12 @@ pub fn run(id: &'static str, tier: Tier, seed: u64) -> i32 {
         e1: false,
     };
     finish(meta, total, started)
+}
+
+pub fn replay_threads(j: &serde_json::Value) -> Vec<String> {
+    let sigs: Vec<Sig> = j["signals"].as_array().map(|a| a.iter().filter_map(|s| s.as_str().and_then(Sig::parse)).collect()).unwrap_or_default();
+    match load(j["text"].as_str().unwrap_or(""), &sigs, DEFAULT_BUDGET) {
+        Ok(tc) => run_across_threads(&tc, &answer(&sigs, 1), j["moved_after"].as_u64().unwrap_or(0) as usize, j["calls"].as_u64().unwrap_or(1) as usize),
+        Err(e) => vec![format!("{e:?}")],
+    }
 }
